@@ -283,6 +283,12 @@ class _FakeIonQ:
             return self.Resp({"id": parts[0], "status": "completed", "backend": job["backend"], "target": job["backend"], "name": job.get("name", ""), "metadata": job["metadata"],
                               "stats": {"qubits": inp["qubits"]}, "qubits": inp["qubits"]})
         circuits = [c["circuit"] for c in inp["circuits"]] if "circuits" in inp else [inp["circuit"]]
+        # a batch answers at .../results/probabilities/aggregated, a single circuit at .../results/probabilities
+        wants_aggregated = url.rstrip("/").endswith("/aggregated")
+        if wants_aggregated != ("circuits" in inp):
+            r = self.Resp({"error": "Not Found", "message": "no such results for this kind of job"})
+            r.status_code, r.ok = 404, False
+            return r
         hists = {}
         for i, ops in enumerate(circuits):
             n = inp["qubits"]
@@ -355,6 +361,12 @@ def standin_ionq_jobs(tier, seed):
                     job = service.create_batch_job(circuits, repetitions=reps, target=target)
                 else:
                     job = service.create_job(circuits[0], repetitions=reps, target=target)
+                if rng.random() < 0.4:
+                    # another job of the OTHER kind is created through the same service before the results are fetched
+                    other = cirq.Circuit(cirq.X(cirq.LineQubit(0)), cirq.measure(cirq.LineQubit(0), key="o"))
+                    (service.create_job(other, repetitions=1, target=target) if batch else service.create_batch_job([other, other], repetitions=1, target=target))
+                if rng.random() < 0.3:
+                    job = cirq_ionq.Service(remote_host="http://fake.invalid", api_key="key", default_target=target).get_job(job.job_id())   # looked up again later
                 res = job.results(polling_seconds=0)
             except Exception as ex:
                 fails.append(dict(args=dict(circuits=[repr(c) for c in circuits], target=target), failed="job-raised", clause=f"{type(ex).__name__}: {str(ex)[:200]}"))
